@@ -177,7 +177,22 @@ def py_match(d, data):
     return s in d['accepting']
 
 
+def _byte_pat(bs):
+    """Rust match pattern for a set of bytes, as ranges"""
+    bs = sorted(bs)
+    parts = []
+    i = 0
+    while i < len(bs):
+        j = i
+        while j + 1 < len(bs) and bs[j + 1] == bs[j] + 1:
+            j += 1
+        parts.append('%d' % bs[i] if i == j else '%d..=%d' % (bs[i], bs[j]))
+        i = j + 1
+    return ' | '.join(parts)
+
+
 def emit_rust(dfas):
+    """DFAs as nested `match` (comparison chains are far cheaper for CBMC than table lookups)."""
     out = ['//! GENERATED by /verif/extract/dfa.py from the regex literals of the current source.',
            '#[derive(Clone, Copy)]', 'pub struct VerifDfa(pub usize);',
            'impl VerifDfa {',
@@ -188,27 +203,30 @@ def emit_rust(dfas):
            '        let mut st: u8 = 1;',
            '        let mut i = 0;',
            '        while i < b.len() {',
-           '            if b[i] > 127 { return false; }',
-           '            st = step(self.0, st, b[i]);',
-           '            if st == 0 { return false; }',
-           '            i += 1;',
-           '        }',
-           '        accepting(self.0, st)',
-           '    }',
-           '}',
-           'fn step(k: usize, st: u8, byte: u8) -> u8 {',
-           '    match k {']
+           '            st = match self.0 {']
+    for k in range(len(dfas)):
+        out.append('                %d => step_%d(st, b[i]),' % (k, k))
+    out += ['                _ => 0,', '            };',
+            '            if st == 0 { return false; }',
+            '            i += 1;',
+            '        }',
+            '        match self.0 {']
     for k, d in enumerate(dfas):
-        out.append('        %d => TRANS_%d[st as usize][CLASS_%d[byte as usize] as usize],' % (k, k, k))
-    out += ['        _ => 0,', '    }', '}', 'fn accepting(k: usize, st: u8) -> bool {', '    match k {']
+        out.append('            %d => matches!(st, %s),' % (k, ' | '.join(str(a) for a in d['accepting']) or '255'))
+    out += ['            _ => false,', '        }', '    }', '}']
     for k, d in enumerate(dfas):
-        cond = ' || '.join('st == %d' % a for a in d['accepting']) or 'false'
-        out.append('        %d => %s,' % (k, cond))
-    out += ['        _ => false,', '    }', '}']
-    for k, d in enumerate(dfas):
-        out.append('const CLASS_%d: [u8; 128] = %s;' % (k, d['byte_class']))
-        out.append('const TRANS_%d: [[u8; %d]; %d] = [%s];' % (k, d['nclass'], len(d['trans']),
-                   ', '.join(str(r) for r in d['trans'])))
+        out.append('fn step_%d(st: u8, byte: u8) -> u8 {' % k)
+        out.append('    match st {')
+        for sid, row in enumerate(d['trans']):
+            if sid == 0 or not any(row):
+                continue
+            arms = {}
+            for b in range(128):
+                t = row[d['byte_class'][b]]
+                if t:
+                    arms.setdefault(t, []).append(b)
+            out.append('        %d => match byte { %s _ => 0 },' % (sid, ' '.join('%s => %d,' % (_byte_pat(bs), t) for t, bs in sorted(arms.items()))))
+        out += ['        _ => 0,', '    }', '}']
     return '\n'.join(out) + '\n'
 
 
